@@ -291,4 +291,21 @@ example : raw_options [("Tabulation", [("target", "LAMMPS")])] [("nr", "5")] "Va
     raw_options [("Tabulation", [("target", "LAMMPS")])] [("nr", "5")] "Variables" "Pair" = .error RawErr.noSection := by
   constructor <;> simp [raw_options, lookupLast]
 
+open Atsim.Gen.Logic in
+/-- the two methods of the code as written agree: for a section other than `[Variables]`, `has_option(s, k)` holds exactly when `options(s)` succeeds and lists the
+normalised key - what `--list-items` shows of a section is what `has_option` (and therefore the override / removal / addition rules of C14) accepts as its items. -/
+theorem C15_code_has_option_iff_options (ini : Ini) (superHasOption : String → String → Bool) (s k : String)
+    (hd : ini.sections.Pairwise (fun a b => a.1 ≠ b.1)) (hne : s ≠ "") (hv : s ≠ "Variables") :
+    raw_has_option Atsim.strip superHasOption ini.sections "Variables" s k = true ↔
+      ∃ ks, raw_options ini.sections ini.vars "Variables" s = .ok ks ∧ norm k ∈ ks := by
+  rw [C15_code_has_option ini superHasOption s k hd hne hv, C15_code_options ini s hd hv]
+  have h2 : (s == "Variables") = false := by simpa using hv
+  simp only [hasOption, sectionKeys, currentCfg, testKey, h2]
+  cases hf : ini.sections.find? (fun p => p.1 == s) with
+  | none => simp
+  | some q =>
+    obtain ⟨n, kvs⟩ := q
+    simp only [if_true, Bool.false_eq_true, if_false, Bool.not_true, Bool.false_and, Bool.or_false, List.any_eq_true, beq_iff_eq,
+      Except.ok.injEq, exists_eq_left', List.mem_map]
+
 end Atsim.C15
